@@ -235,6 +235,46 @@ impl tokio::io::AsyncRead for QuicRecvStream {
     }
 }
 
+/// Reader that makes a frame read on a [`QuicRecvStream`] cancel safe.
+///
+/// The bytes consumed while reading a frame live inside the read future: if that future is
+/// dropped before completion (the driver re-creates its read futures at every loop iteration)
+/// they would be lost. Every byte read from the stream is therefore also recorded into
+/// `replay`, and served again to the next read attempt.
+struct ReplayReader<'a> {
+    stream: &'a mut QuicRecvStream,
+    replay: &'a mut Vec<u8>,
+    offset: usize,
+}
+
+impl wtransport_proto::bytes::AsyncRead for ReplayReader<'_> {
+    fn poll_read(
+        self: Pin<&mut Self>,
+        cx: &mut Context<'_>,
+        buf: &mut [u8],
+    ) -> Poll<std::io::Result<usize>> {
+        let this = self.get_mut();
+
+        if this.offset < this.replay.len() {
+            let len = std::cmp::min(buf.len(), this.replay.len() - this.offset);
+            buf[..len].copy_from_slice(&this.replay[this.offset..this.offset + len]);
+            this.offset += len;
+            return Poll::Ready(Ok(len));
+        }
+
+        let len = ready!(wtransport_proto::bytes::AsyncRead::poll_read(
+            Pin::new(&mut *this.stream),
+            cx,
+            buf
+        ))?;
+
+        this.replay.extend_from_slice(&buf[..len]);
+        this.offset += len;
+
+        Poll::Ready(Ok(len))
+    }
+}
+
 #[derive(Debug)]
 pub struct Stream<S, P> {
     stream: S,
@@ -424,8 +464,22 @@ pub mod uniremote {
     }
 
     impl StreamUniRemoteH3 {
-        pub async fn read_frame<'a>(&mut self) -> Result<Frame<'a>, ProtoReadError> {
-            self.proto.read_frame_async(&mut self.stream).await
+        /// Reads a frame in a cancel safe way.
+        ///
+        /// `replay` must be preserved (untouched) across calls on the same stream.
+        pub async fn read_frame<'a>(
+            &mut self,
+            replay: &mut Vec<u8>,
+        ) -> Result<Frame<'a>, ProtoReadError> {
+            let mut reader = ReplayReader {
+                stream: &mut self.stream,
+                replay,
+                offset: 0,
+            };
+
+            let result = self.proto.read_frame_async(&mut reader).await;
+            replay.clear();
+            result
         }
 
         pub fn kind(&self) -> StreamKind {
@@ -534,6 +588,24 @@ pub mod session {
     impl StreamSession {
         pub async fn read_frame<'a>(&mut self) -> Result<Frame<'a>, ProtoReadError> {
             self.proto.read_frame_async(&mut self.stream.1).await
+        }
+
+        /// Reads a frame in a cancel safe way.
+        ///
+        /// `replay` must be preserved (untouched) across calls on the same stream.
+        pub async fn read_frame_cancel_safe<'a>(
+            &mut self,
+            replay: &mut Vec<u8>,
+        ) -> Result<Frame<'a>, ProtoReadError> {
+            let mut reader = ReplayReader {
+                stream: &mut self.stream.1,
+                replay,
+                offset: 0,
+            };
+
+            let result = self.proto.read_frame_async(&mut reader).await;
+            replay.clear();
+            result
         }
 
         pub async fn write_frame(&mut self, frame: Frame<'_>) -> Result<(), ProtoWriteError> {
